@@ -34,7 +34,8 @@ ASSUMPTIONS = [
     'healthy engines return correct optima / certificates (their agreement is the cross-check)',
     'the stubbed failure returns reproduce what the engine APIs document (status codes, missing attributes)',
     'CyLP, CPLEX, Mosek, COPT are not installed: clp/cpx/msk/cpt interfaces and LMI/SDP programs are not exercised',
-    'ECOS_BB (eco_solver on integer programs) is excluded: with mi_max_iters=1e8 it can cycle for hours',
+    'ECOS_BB (eco_solver on integer programs) runs only on the exact-weight knapsack scenario, behind a wall-clock cap of 20000 '
+    'nodes in the proxy (with mi_max_iters=1e8 it can cycle for hours); a run ended by the cap is inconclusive',
 ]
 COMPONENTS = {
     'real': ['rsome/* from the tree under test', 'HiGHS (scipy), ECOS, GLOP/SCIP (OR-Tools), Gurobi: real engines on every call'],
@@ -245,6 +246,28 @@ def gen_case(seed, cfg):
         calls = [{'solver': 'grb', 'display': False, 'params': {'SolutionLimit': 1}, 'real_limit': True},
                  {'solver': 'grb', 'display': False}, {'solver': rng.choice(['def', 'ort']), 'display': False}]
         return {'prog': prog, 'calls': calls, 'seed': seed}
+    if rng.random() < cfg.get('p_ecos_bb', 0.05):
+        # real-engine scenario, no stub: a pure-binary MILP with one equality row (exact-weight knapsack, integer costs) on
+        # which a plain branch-and-bound (ECOS_BB) needs hundreds to thousands of nodes while HiGHS / SCIP / Gurobi are
+        # instant.  Whatever an interface reports as the solution must be THE optimum (values differ by >= 1).
+        n = rng.randint(18, 22)
+        wt = [float(rng.randint(50, 1000)) for _ in range(n)]
+        cost = [float(rng.randint(1, 30)) for _ in range(n)]
+        target = float(sum(w_ for w_ in wt if rng.random() < 0.5))
+        ops = [{'op': 'model', 'id': 'm', 'kind': 'ro'}, {'op': 'dvar', 'id': 'b', 'm': 'm', 'shape': [n], 'vtype': 'B'},
+               {'op': 'cons', 'id': 'k0', 'e': ['==', ['@', ['c', wt], ['v', 'b']], ['c', target]]},
+               {'op': 'st', 'm': 'm', 'ids': ['k0']},
+               {'op': 'obj', 'm': 'm', 'how': 'min', 'e': ['@', ['c', cost], ['v', 'b']]}]
+        prog = {'cls': 'MILP', 'variant': 'feasible', 'ops': ops, 'vars': ['b'], 'sense': 'min', 'variant_real': 'ecos_bb'}
+        others = ['def', 'ort', 'grb']
+        rng.shuffle(others)
+        calls = [{'solver': others[0], 'display': False}, {'solver': 'eco', 'display': False}, {'solver': others[1], 'display': False}]
+        if rng.random() < 0.5:
+            calls = [calls[1], calls[0], calls[2]]
+        if rng.random() < 0.5:
+            calls.append({'solver': 'eco', 'display': False, 'fault': {'kind': 'status', 'status': rng.choice([1, -2, 11])}})
+            calls.append({'solver': 'eco', 'display': False})
+        return {'prog': prog, 'calls': calls, 'seed': seed}
     prog = gen_program(rng, cfg)
     return {'prog': prog, 'calls': gen_calls(rng, prog, cfg), 'seed': seed}
 
@@ -451,6 +474,12 @@ def check_case(case, props):
                 viol('healthy-call-raises', '%s raised %s on a healthy call: %s' % (sv, rec['exc'], rec.get('msg')),
                      [eng], exc=':'.join(rec['exc']))
                 break
+            if sv == 'eco' and cls in ('MILP', 'MISOCP'):
+                stats['probes']['ecos_bb_call'] = stats['probes'].get('ecos_bb_call', 0) + 1
+                if w.ecos_bb_capped:
+                    # the proxy's wall-clock cap ended the branch-and-bound: the answer is no optimum, nothing to judge
+                    inconc('ecos_bb_cap_hit')
+                    continue
             stats['healthy'][sv] = stats['healthy'].get(sv, 0) + 1
             variant = prog['variant']
             if variant != 'feasible':
